@@ -74,6 +74,7 @@ class Verifier(QuantMixin, LoopMixin, ExprMixin, CallMixin, StmtMixin, BuiltinsM
         self.cross: List[Dict[str, Any]] = []
         self.oracles: Dict[str, Dict[str, Any]] = {}
         self.field_types: Dict[Tuple[str, str], str] = {}
+        self.oracle_methods: Dict[str, Dict[str, Any]] = {}
 
     def reset_path(self, decisions):
         super().reset_path(decisions)
@@ -547,6 +548,15 @@ class Verifier(QuantMixin, LoopMixin, ExprMixin, CallMixin, StmtMixin, BuiltinsM
             return self.await_value(v, e)
         return super().ev_Await(e, fr)
 
+    def assumed_method(self, name, recv, args, kwargs, star, dstar, node=None):
+        if name.startswith('oracle.'):
+            _, cname, mname = name.split('.', 2)
+            spec = self.oracle_methods[cname][mname]
+            at = self.mk_tuple(list(args))
+            kd = self.mk_dict([(smt.mk_str(k), v) for k, v in kwargs.items()])
+            return self.oracle_outcome(spec, f'call:{mname}', recv, at, kd)
+        return NotImplemented
+
     def record_event(self, kind: str, fv, at, kd, outcome: str, value) -> None:
         n = self.st.ghost['tr_len']
         vals = dict(kind=smt.mk_str(kind), callee=fv, args=at, kwargs=kd, outcome=smt.mk_str(outcome), value=value)
@@ -849,8 +859,20 @@ class Verifier(QuantMixin, LoopMixin, ExprMixin, CallMixin, StmtMixin, BuiltinsM
                 raise Infeasible()
             self.old = self.st.snapshot()
             self.writes = []
+            target = fi
+            clo = ct.extra.get('closure')
+            if clo:
+                pfr = Frame(None, fi.module)
+                for cn, cspec in clo.items():
+                    cv = z3.Const(f'c_{cn}', Val)
+                    self.bound_ref(cv)
+                    self._add_axiom(cv != smt.ABSENT)
+                    self.assume_type(cv, cspec)
+                    pfr.locals[cn] = cv
+                    vals[cn] = cv
+                target = Closure(fi, pfr, self.eval_defaults(fi.node.args, pfr))
             try:
-                result = self.call_function(fi, args, kwargs, star, dstar)
+                result = self.call_function(target, args, kwargs, star, dstar)
                 outcome = 'return'
             except PyRaise as pr:
                 result = pr
